@@ -113,4 +113,78 @@ def Blanks (s : Str) : Prop := s ≠ [] ∧ ∀ c ∈ s, c = 32 ∨ c = 9
 /-- BSD flags column: letters only. -/
 def Flags (t : Str) : Prop := t ≠ [] ∧ ∀ c ∈ t, (65 ≤ c ∧ c ≤ 90) ∨ (97 ≤ c ∧ c ≤ 122)
 
+
+/-! ### Whole routing tables, line by line, as the tools print them
+
+A table is a list of lines; each line is one of the forms below.  `net` is what the property says the line
+contributes to the advertisement (`none`: nothing).  Forms that carry no route: `ip route` lines whose first
+word has no `/` (the `default` route, the route-type keywords `blackhole`/`unreachable`/`prohibit`/…, titles —
+and bare host routes, see `IpHost` and the known finding), `netstat` titles and column headings (first word
+starts with a letter or other non-digit and is not `default`), blank lines, and lines with a non-ASCII byte. -/
+
+/-- leading white space -/
+def White (s : Str) : Prop := ∀ c ∈ s, Sshuttle.Routes.isUSpace c = true
+
+/-- a word: non-empty, no white space -/
+def Word (t : Str) : Prop := t ≠ [] ∧ ∀ c ∈ t, Sshuttle.Routes.isUSpace c = false
+
+/-- what follows a word: nothing, or white space and then anything -/
+def After (r : Str) : Prop := r = [] ∨ ∃ c t, r = c :: t ∧ Sshuttle.Routes.isUSpace c = true
+
+/-- One line of `ip route` output. -/
+inductive IpLine
+  | route (d : Dest) (rest : Str)        -- `a.b.c.d/n …` (metric, dev, proto, … in `rest`)
+  | other (ws word rest : Str)           -- first word without `/`
+  | blank (l : Str)
+  | garbled (l : Str)                    -- contains a non-ASCII byte
+
+def IpLine.bytes : IpLine → Str
+  | .route d rest => d.text ++ rest
+  | .other ws w rest => ws ++ w ++ rest
+  | .blank l => l
+  | .garbled l => l
+
+def IpLine.Wf : IpLine → Prop
+  | .route d rest => IpPrefix d ∧ Rest rest
+  | .other ws w rest => White ws ∧ Word w ∧ 47 ∉ w ∧ After rest
+  | .blank l => l.all Sshuttle.Routes.isBSpace = true
+  | .garbled l => l.all (· < 128) = false
+
+def IpLine.net : IpLine → Option (Nat × Nat)
+  | .route d _ => advertised d
+  | _ => none
+
+/-- One line of `netstat -rn` output (Linux or BSD layout). -/
+inductive NsLine
+  | linux (a b c d n : Nat) (s1 gw s2 rest : Str)     -- destination, gateway, contiguous Genmask /n, …
+  | bsd (d : Dest) (s1 gw s2 fl rest : Str)           -- destination (abbreviated), gateway, flags, …
+  | heading (ws : Str) (c : Nat) (t rest : Str)       -- first word `c :: t` starts with a non-digit, is not `default`
+  | blank (l : Str)
+  | garbled (l : Str)
+
+def NsLine.bytes : NsLine → Str
+  | .linux a b c d n s1 gw s2 rest => octText [a, b, c, d] ++ s1 ++ gw ++ s2 ++ quadText (netmask n) ++ rest
+  | .bsd d s1 gw s2 fl rest => d.text ++ s1 ++ gw ++ s2 ++ fl ++ rest
+  | .heading ws c t rest => ws ++ (c :: t) ++ rest
+  | .blank l => l
+  | .garbled l => l
+
+def NsLine.Wf : NsLine → Prop
+  | .linux a b c d n s1 gw s2 rest =>
+    a < 256 ∧ b < 256 ∧ c < 256 ∧ d < 256 ∧ n ≤ 32 ∧ Blanks s1 ∧ Blanks s2 ∧ Column gw ∧ Rest rest
+  | .bsd d s1 gw s2 fl rest => BsdNet d ∧ Blanks s1 ∧ Blanks s2 ∧ Column gw ∧ Flags fl ∧ fl ≠ defaultText ∧ Rest rest
+  | .heading ws c t rest =>
+    White ws ∧ Word (c :: t) ∧ Sshuttle.Routes.isDigit c = false ∧ c :: t ≠ defaultText ∧ After rest
+  | .blank l => l.all Sshuttle.Routes.isBSpace = true
+  | .garbled l => l.all (· < 128) = false
+
+def NsLine.net : NsLine → Option (Nat × Nat)
+  | .linux a b c d n .. => advertised (.net [a, b, c, d] (some n))
+  | .bsd d .. => advertised d
+  | _ => none
+
+/-- The advertisement the property demands for a table: the networks of its lines, in order. -/
+def ipRoutes (table : List IpLine) : List Sshuttle.Routes.Route := (table.filterMap IpLine.net).map toRoute
+def nsRoutes (table : List NsLine) : List Sshuttle.Routes.Route := (table.filterMap NsLine.net).map toRoute
+
 end Sshuttle.Routes.Spec
